@@ -20,7 +20,7 @@ inductive EStep : St → St → Prop
   /-- push an instruction that writes no register, declares nothing, sets no label; a value record
   it uses is visible -/
   | emit (s : St) (i : Instr) (hw : i.writes = none) (hd : i.declares = none) (hl : i.setsLabel = none)
-      (hu : ∀ v, i.usesValue = some v → ∃ n, s.lookupValue n = some v) : EStep s (s.push i)
+      (hu : ∀ v, i.usesValue = some v → ∃ n, s.lookupValue n = some v) (hr : i.isRet = false) : EStep s (s.push i)
   /-- bump the counter and push an instruction that writes the new register -/
   | incEmit (s : St) (i : Instr) (hw : i.writes = some s.incReg.curReg) (hd : i.declares = none)
       (hl : i.setsLabel = none) (hu : ∀ v, i.usesValue = some v → ∃ n, s.lookupValue n = some v) :
@@ -39,11 +39,14 @@ inductive Step : St → St → Prop
   | regLabel (s : St) (l : Name) (h : s.labelUsed l = false) :
       Step s (s.mapFrames fun b => { b with labels := setInsert l b.labels })
   /-- label / jump instruction pushed through the current block -/
-  | ctl (s : St) (i : Instr) (hw : i.writes = none) (hd : i.declares = none) (hu : i.usesValue = none) :
-      Step s (s.push i)
+  | ctl (s : St) (i : Instr) (hw : i.writes = none) (hd : i.declares = none) (hu : i.usesValue = none)
+      (hr : i.isRet = false) : Step s (s.push i)
+  /-- a function-return or jump-to-return instruction (`function_body` Return/Expression arms, nested returns) -/
+  | emitRet (s : St) (i : Instr) (hi : i.isRet = true) (hw : i.writes = none) (hd : i.declares = none)
+      (hl : i.setsLabel = none) (hu : i.usesValue = none) : Step s (s.push i)
   /-- label / jump instruction pushed through the suspended if-block -/
-  | ctlVia (s : St) (k : Nat) (i : Instr) (hw : i.writes = none) (hd : i.declares = none) (hu : i.usesValue = none) :
-      Step s (s.pushVia k i)
+  | ctlVia (s : St) (k : Nat) (i : Instr) (hw : i.writes = none) (hd : i.declares = none) (hu : i.usesValue = none)
+      (hr : i.isRet = false) : Step s (s.pushVia k i)
   | setReturn (s : St) : Step s s.setReturn
   /-- the documented `expect` on the loop labels -/
   | setPanic (s : St) (site : Nat) : Step s (s.setPanic site)
